@@ -1,5 +1,5 @@
 (* Pinned statements for C01: a changed statement or a new axiom fails the check. *)
-From SwimV Require Import Model.Uplinks Proofs.UplinksProofs Model.ValuePipeline Proofs.ValuePipelineProofs Props.C01.
+From SwimV Require Import Model.Uplinks Proofs.UplinksProofs Model.ValuePipeline Proofs.ValuePipelineProofs Model.WriteLoop Proofs.WriteLoopProofs Props.C01.
 Open Scope N_scope.
 Check (C01_value_event_is_latest) : (forall kf ops, Forall (well_kinded kf) ops -> forall h t b, In (h, Some t) (urun uplinks0 [] ops) -> kf (wt_lane t) = KValue -> (wt_action t = WEvent b \/ wt_action t = WValueSynced true b) -> last_value h (wt_lane t) None = Some b).
 Print Assumptions C01_value_event_is_latest.
@@ -17,3 +17,11 @@ Check (C01_linked_remote_converges) : (forall init ops1 ops2 r, let p1 := pexec 
 Print Assumptions C01_linked_remote_converges.
 Check (C01_owes_witness) : (Owes 1 (pexec (pipe0 [48]) [PAdd 1; PLink 1; PSet [53]])).
 Print Assumptions C01_owes_witness.
+Check (C01_loop_no_writer_lost) : (forall items its s, wl_run (wl0 items) its = Some s -> forall x, WriteLoop.mem x items = xorb (WriteLoop.mem x (wl_writers s)) (WriteLoop.mem x (wl_pending s)) /\ WriteLoop.mem x (wl_writers s) && WriteLoop.mem x (wl_pending s) = false).
+Print Assumptions C01_loop_no_writer_lost.
+Check (C01_loop_flagged_item_has_write_in_flight) : (forall items its it s s', wl_run (wl0 items) its = Some s -> wl_iter s it = Some s' -> forall x, WriteLoop.mem x (wl_dirty s') = true -> WriteLoop.mem x (wl_pending s') = true).
+Print Assumptions C01_loop_flagged_item_has_write_in_flight.
+Check (C01_loop_reported_change_stays_flagged) : (forall items its s, wl_run (wl0 items) its = Some s -> forall x, WriteLoop.mem x (wl_owed s) = true -> WriteLoop.mem x (wl_dirty s) = true).
+Print Assumptions C01_loop_reported_change_stays_flagged.
+Check (C01_loop_quiescent_nothing_owed) : (forall items its it s s', wl_run (wl0 items) its = Some s -> wl_iter s it = Some s' -> wl_pending s' = [] -> forall x, WriteLoop.mem x (wl_owed s') = false).
+Print Assumptions C01_loop_quiescent_nothing_owed.
